@@ -44,13 +44,13 @@ def log(*a):
 # context
 
 class Ctx:
-    def __init__(self, pid, tier, seed):
+    def __init__(self, pid, tier, seed, replay=False):
         self.pid = pid
         self.tier = tier
         self.seed = seed
         self.quick = tier == "quick"
         self.t0 = time.time()
-        self.work = os.path.join(WORK, f"{pid}-{tier}")
+        self.work = os.path.join(WORK, f"{pid}-replay" if replay else f"{pid}-{tier}")
         shutil.rmtree(self.work, ignore_errors=True)
         os.makedirs(self.work, exist_ok=True)
         self.coverage = {}
